@@ -251,6 +251,10 @@ func main() {
 					_ = cfgp.Fprint(&buf, token.NewFileSet(), d)
 					sum := sha256.Sum256(buf.Bytes())
 					fps[full] = hex.EncodeToString(sum[:])
+					// C14 side check: statements of a strmap Get that assign through the receiver
+					if short == "strmap" && fn == "Get" && rn != "" && d.Recv != nil && len(d.Recv.List) > 0 && len(d.Recv.List[0].Names) > 0 {
+						o.add("Definition strmap_%s_Get_receiver_writes : Z := %d%%Z.", rn, receiverWrites(d.Body, d.Recv.List[0].Names[0].Name))
+					}
 					// typeToSize index sites, local var types, case labels
 					ast.Inspect(d.Body, func(n ast.Node) bool {
 						switch x := n.(type) {
@@ -326,6 +330,49 @@ func main() {
 		b, _ := json.MarshalIndent(fps, "", " ")
 		os.WriteFile(filepath.Join(*fpDir, "fingerprints.json"), b, 0o644)
 	}
+}
+
+// receiverWrites counts the assignments and inc/dec statements of body whose target is reached
+// through the receiver variable recv (recv.f = .., recv.f[i] = .., *recv = .., recv.f++).
+// Stores through a local alias of receiver memory are not seen (no alias analysis).
+func receiverWrites(body *ast.BlockStmt, recv string) int {
+	root := func(e ast.Expr) string {
+		for {
+			switch x := e.(type) {
+			case *ast.SelectorExpr:
+				e = x.X
+			case *ast.IndexExpr:
+				e = x.X
+			case *ast.StarExpr:
+				e = x.X
+			case *ast.ParenExpr:
+				e = x.X
+			case *ast.SliceExpr:
+				e = x.X
+			case *ast.Ident:
+				return x.Name
+			default:
+				return ""
+			}
+		}
+	}
+	n := 0
+	ast.Inspect(body, func(nd ast.Node) bool {
+		switch x := nd.(type) {
+		case *ast.AssignStmt:
+			for _, lhs := range x.Lhs {
+				if _, isIdent := lhs.(*ast.Ident); !isIdent && root(lhs) == recv {
+					n++
+				}
+			}
+		case *ast.IncDecStmt:
+			if _, isIdent := x.X.(*ast.Ident); !isIdent && root(x.X) == recv {
+				n++
+			}
+		}
+		return true
+	})
+	return n
 }
 
 func boolZ(b bool) string {
